@@ -611,9 +611,8 @@ class MailboxSet(MailboxSetInterface[MailboxData]):
 
     async def list_subscribed(self) -> ListTree:
         async with Subscriptions.with_read(self._path) as subs:
-            subscribed = frozenset(subs.subscribed)
-        mailboxes = [name for name in self._layout.list_folders(self.delimiter)
-                     if name in subscribed]
+            # whether or not a mailbox by that name exists (any more)
+            mailboxes = sorted(subs.subscribed)
         return ListTree(self.delimiter).update(*mailboxes)
 
     async def list_mailboxes(self) -> ListTree:
